@@ -419,20 +419,32 @@ PROPS = {
                   "stand-in (generated target/link documents) for the resolution transform",
     ),
     "C11": dict(
-        level="exploration",
-        contracts=[],
+        level="other",
+        contracts=["contracts.footnotes"],
         harness=True,
         explanation=(
-            "BOUNDED ONLY so far (render_footnote_reference and the Sort/Collect/Unreferenced transforms are not yet under "
-            "contract): all reference sequences up to length 3/4 over three labels and random reference/definition sequences "
+            "PROVED (pyvc, relative to the docutils node / registry model and G'): render_footnote_ref attaches exactly one "
+            "footnote_reference node at the reference's line, records it in the reference registry, and - for a non-numeric "
+            "label - in the auto-numbered registry, at the end (so auto-numbered references are registered in order of "
+            "reference), a numeric label shows its own number, no definition registry and no warning is touched; "
+            "render_footnote_reference (a DEFINITION) with a label that is already registered emits exactly one "
+            "'footnote' warning, attaches nothing and leaves every registry as it was (other footnotes undisturbed); "
+            "otherwise it attaches exactly ONE footnote node named by the label, renders the text inside it, registers the "
+            "name, and registers the node once - directly after what was registered before - in the manual registry for a "
+            "numeric label, in the auto-numbered one otherwise; earlier registry entries keep their place.  NOT under "
+            "contract: SortFootnotes / CollectFootnotes / UnreferencedFootnotesDetector (list.sort with a closure key, "
+            "filtering list comprehensions over docutils registries, node moves - outside the engine's subset) and docutils' "
+            "own Footnotes transform (numbering).  BOUNDED: "
+            "all reference sequences up to length 3/4 over three labels and random reference/definition sequences "
             "(numeric and named labels, duplicates, unreferenced, with and without sorting / transition / heading / trailing "
             "content) against a reference model: numbering, reference -> definition refid and shown number, back-references, "
             "pairwise distinct labels, collection at the end in ascending order, exactly one transition when configured, "
             "definitions stay in place when sorting is off, one warning per duplicate / unreferenced definition, no text lost."
         ),
-        assumptions=["docutils Footnotes transform (numbering of document.autofootnotes in list order, refid/backref linking)"],
-        trusted_base=[],
-        technique="bounded run-time stand-in (reference/definition sequences vs a numbering model) - no contract discharged yet",
+        assumptions=["docutils footnote registries and note_* methods (contracts/footnotes.py)", "G' for the text of a footnote (see C02)"],
+        trusted_base=["docutils node model", "docutils.transforms.references.Footnotes (numbering)"],
+        technique="contract-based deductive verification of the two footnote renderers against a registry model; bounded run-time stand-in "
+                  "(reference/definition sequences vs a numbering model) for the transforms",
     ),
     "C12": dict(
         level="exploration",
